@@ -176,6 +176,24 @@ func (ex *Exec) loopHead(l *Loop, b *ssa.BasicBlock, edges []edge, reachIn strin
 			}
 		}
 	}
+	// locks: every iteration leaves the lock state as the loop found it
+	if l.Mod["HELD"] && !vc.discover {
+		vc.assume(sImp(reach, sEq(ex.get(nst, "HELD", "(Array Int Int)"), ex.get(st, "HELD", "(Array Int Int)"))))
+	}
+	// lemmas at the cut (state after the havoc, invariants assumed)
+	if spec != nil && !vc.discover {
+		overlay := ex.scratchHeader(l, phiNew, nst)
+		for k, lm := range spec.Lemmas {
+			ex.proveLemma(fmt.Sprintf("loop%d.lemma[%d]", l.Ordinal, k+1), lm, func() *Eval {
+				ev := ex.newEval(nst, ex.entry)
+				ex.bindParams(ev)
+				ev.point = &progPoint{block: l.Header, idx: len(l.Header.Instrs)}
+				ev.loopOld = ex.loopEntry[l]
+				ev.overlay = overlay
+				return ev
+			}, reach)
+		}
+	}
 	ex.curState = nst
 }
 
@@ -242,6 +260,10 @@ func (ex *Exec) loopBack(l *Loop, from, header *ssa.BasicBlock) {
 			}
 			vc.oblige(name, inv.Tag, pos, guard, t, "invariant preserved: "+inv.Text)
 		}
+	}
+	if l.Mod["HELD"] && ex.loopEntry[l] != nil {
+		vc.oblige(fmt.Sprintf("loop%d.lock.balanced", l.Ordinal), "lock", header.Instrs[0].Pos(), guard,
+			sEq(ex.get(st, "HELD", "(Array Int Int)"), ex.get(ex.loopEntry[l], "HELD", "(Array Int Int)")), "each iteration releases exactly the locks it takes")
 	}
 	if ex.parent == nil {
 		for _, key := range sortedKeys(l.Mod) {
